@@ -46,19 +46,21 @@ package ircserver
 //@ pred msgTime(m *robust.Message) = ite(m.UnixNano == 0, time.Unix(0, m.Id.Id), time.Unix(0, m.UnixNano))
 // every ban carries its compiled pattern
 //@ pred bansOK(c *channel) = forall k int :: 0 <= k && k < len(c.bans) ==> c.bans[k].re != nil
-//@ pred wfLocks(i *IRCServer) = i.sessionsMu != nil && i.lastProcessedMu != nil && i.ConfigMu != nil && i.ServerPrefix != nil
+//@ pred wfLocks(i *IRCServer) = i.sessionsMu != nil && i.lastProcessedMu != nil && i.ConfigMu != nil && i.ServerPrefix != nil && toplevel(i.ServerPrefix) && allocated(i.ServerPrefix)
 //@ pred wfBase(i *IRCServer) = i != nil && wfLocks(i) && i.svsholds != nil && i.Config.Banned != nil
 // sessions created through the API (Reply == 0) carry the random session secret (>= 8 bytes are used as captcha challenge)
 //@ pred wfAuth(i *IRCServer) = forall id robust.Id :: id in i.sessions && id.Reply == 0 ==> len(i.sessions[id].auth) >= 8
 // between entries no session is marked deleted (MaybeDeleteSession removes them at the end of every entry)
 // a logged-in session has a nickname
 //@ pred wfLogin(i *IRCServer) = forall id robust.Id :: id in i.sessions && i.sessions[id].loggedIn ==> i.sessions[id].Nick != ""
+// C12 identity: the prefix under which a (non-services) session's lines are relayed carries its current nickname and user name
+//@ pred wfPrefix(i *IRCServer) = forall id robust.Id :: id in i.sessions && !i.sessions[id].Server ==> i.sessions[id].ircPrefix.Name == i.sessions[id].Nick && i.sessions[id].ircPrefix.User == i.sessions[id].Username
 //@ pred wfAlive(i *IRCServer) = forall id robust.Id :: id in i.sessions ==> !i.sessions[id].deleted
 //@ pred wfMid(i *IRCServer) = wfBase(i) && wfSessions(i) && wfNicks(i) && wfChannels(i) && wfMember(i) && wfOwner(i)
 
 // A reply context under construction: send() indexes the last message when
 // called again with the same irc.Message.
-//@ pred replyOK(r *Replyctx) = r != nil && (r.lastmsg != nil ==> len(r.Messages) > 0) && (forall k int :: 0 <= k && k < len(r.Messages) ==> r.Messages[k] != nil && r.Messages[k].InterestingFor != nil)
+//@ pred replyOK(r *Replyctx) = r != nil && allocated(r.lastmsg) && (r.lastmsg != nil ==> len(r.Messages) > 0) && (forall k int :: 0 <= k && k < len(r.Messages) ==> r.Messages[k] != nil && allocated(r.Messages[k]) && r.Messages[k].InterestingFor != nil && allocated(r.Messages[k].InterestingFor))
 
 // ---------------------------------------------------------------------------
 // The send helpers (C12: who receives a message)
@@ -83,7 +85,7 @@ package ircserver
 //@   ensures count: old(reply.lastmsg) == msg ==> len(reply.Messages) == old(len(reply.Messages))
 //@   ensures count1: old(reply.lastmsg) != msg ==> len(reply.Messages) == old(len(reply.Messages)) + 1
 //@   ensures kept: forall j int :: 0 <= j && j < old(len(reply.Messages)) ==> reply.Messages[j] == old(reply.Messages[j])
-//@   modifies Replyctx.replyid[reply], Replyctx.Messages[reply], Replyctx.lastmsg[reply], maptype(map[uint64]bool)[reply.Messages[len(reply.Messages)-1].InterestingFor]
+//@   modifies Replyctx.replyid[reply], Replyctx.Messages[reply], Replyctx.lastmsg[reply], maptype(map[uint64]bool)[ite(reply.lastmsg == msg, reply.Messages[len(reply.Messages)-1].InterestingFor, nil)]
 
 //@ func IRCServer.sendChannel
 //@   requires i != nil && i.nicks != nil && c != nil && replyOK(reply) && msg != nil
@@ -91,7 +93,9 @@ package ircserver
 //@   ensures ok: replyOK(reply) && result == msg && reply.lastmsg == msg && len(reply.Messages) > 0
 //@   ensures recipients: forall k uint64 :: k in lastIF(reply) <==> hadBefore(reply, msg, k) || (exists n lcNick :: n in c.nicks && i.nicks[n].Id.Id == k)
 //@   ensures kept: forall j int :: 0 <= j && j < old(len(reply.Messages)) ==> reply.Messages[j] == old(reply.Messages[j])
-//@   modifies Replyctx.replyid[reply], Replyctx.Messages[reply], Replyctx.lastmsg[reply], maptype(map[uint64]bool)[reply.Messages[len(reply.Messages)-1].InterestingFor]
+//@   ensures count: old(reply.lastmsg) == msg ==> len(reply.Messages) == old(len(reply.Messages))
+//@   ensures count1: old(reply.lastmsg) != msg ==> len(reply.Messages) == old(len(reply.Messages)) + 1
+//@   modifies Replyctx.replyid[reply], Replyctx.Messages[reply], Replyctx.lastmsg[reply], maptype(map[uint64]bool)[ite(reply.lastmsg == msg, reply.Messages[len(reply.Messages)-1].InterestingFor, nil)]
 //@   loop range c.nicks
 //@     invariant robustmsg != nil && robustmsg.InterestingFor != nil
 //@     invariant forall n lcNick :: seen(n) ==> n in c.nicks
@@ -103,7 +107,9 @@ package ircserver
 //@   ensures ok: replyOK(reply) && result == msg && reply.lastmsg == msg && len(reply.Messages) > 0
 //@   ensures recipients: forall k uint64 :: k in lastIF(reply) <==> hadBefore(reply, msg, k) || (exists n lcNick :: n in c.nicks && i.nicks[n] != user && i.nicks[n].Id.Id == k)
 //@   ensures kept: forall j int :: 0 <= j && j < old(len(reply.Messages)) ==> reply.Messages[j] == old(reply.Messages[j])
-//@   modifies Replyctx.replyid[reply], Replyctx.Messages[reply], Replyctx.lastmsg[reply], maptype(map[uint64]bool)[reply.Messages[len(reply.Messages)-1].InterestingFor]
+//@   ensures count: old(reply.lastmsg) == msg ==> len(reply.Messages) == old(len(reply.Messages))
+//@   ensures count1: old(reply.lastmsg) != msg ==> len(reply.Messages) == old(len(reply.Messages)) + 1
+//@   modifies Replyctx.replyid[reply], Replyctx.Messages[reply], Replyctx.lastmsg[reply], maptype(map[uint64]bool)[ite(reply.lastmsg == msg, reply.Messages[len(reply.Messages)-1].InterestingFor, nil)]
 //@   loop range c.nicks
 //@     invariant robustmsg != nil && robustmsg.InterestingFor != nil
 //@     invariant forall n lcNick :: seen(n) ==> n in c.nicks
@@ -114,7 +120,9 @@ package ircserver
 //@   ensures ok: replyOK(reply) && result == msg && reply.lastmsg == msg && len(reply.Messages) > 0
 //@   ensures recipients: forall k uint64 :: k in lastIF(reply) <==> hadBefore(reply, msg, k) || (exists n lcNick :: n in i.nicks && i.nicks[n].Id.Id == k)
 //@   ensures kept: forall j int :: 0 <= j && j < old(len(reply.Messages)) ==> reply.Messages[j] == old(reply.Messages[j])
-//@   modifies Replyctx.replyid[reply], Replyctx.Messages[reply], Replyctx.lastmsg[reply], maptype(map[uint64]bool)[reply.Messages[len(reply.Messages)-1].InterestingFor]
+//@   ensures count: old(reply.lastmsg) == msg ==> len(reply.Messages) == old(len(reply.Messages))
+//@   ensures count1: old(reply.lastmsg) != msg ==> len(reply.Messages) == old(len(reply.Messages)) + 1
+//@   modifies Replyctx.replyid[reply], Replyctx.Messages[reply], Replyctx.lastmsg[reply], maptype(map[uint64]bool)[ite(reply.lastmsg == msg, reply.Messages[len(reply.Messages)-1].InterestingFor, nil)]
 //@   loop range i.nicks
 //@     invariant robustmsg != nil && robustmsg.InterestingFor != nil
 //@     invariant forall n lcNick :: seen(n) ==> n in i.nicks
@@ -125,7 +133,9 @@ package ircserver
 //@   ensures ok: replyOK(reply) && result == msg && reply.lastmsg == msg && len(reply.Messages) > 0
 //@   ensures recipients: forall k uint64 :: k in lastIF(reply) <==> hadBefore(reply, msg, k) || (exists j int :: 0 <= j && j < len(i.serverSessions) && i.serverSessions[j] == k)
 //@   ensures kept: forall j int :: 0 <= j && j < old(len(reply.Messages)) ==> reply.Messages[j] == old(reply.Messages[j])
-//@   modifies Replyctx.replyid[reply], Replyctx.Messages[reply], Replyctx.lastmsg[reply], maptype(map[uint64]bool)[reply.Messages[len(reply.Messages)-1].InterestingFor]
+//@   ensures count: old(reply.lastmsg) == msg ==> len(reply.Messages) == old(len(reply.Messages))
+//@   ensures count1: old(reply.lastmsg) != msg ==> len(reply.Messages) == old(len(reply.Messages)) + 1
+//@   modifies Replyctx.replyid[reply], Replyctx.Messages[reply], Replyctx.lastmsg[reply], maptype(map[uint64]bool)[ite(reply.lastmsg == msg, reply.Messages[len(reply.Messages)-1].InterestingFor, nil)]
 //@   loop range i.serverSessions
 //@     invariant robustmsg != nil && robustmsg.InterestingFor != nil && 0 - 1 <= rangeindex && rangeindex < len(i.serverSessions)
 //@     invariant forall k uint64 :: k in robustmsg.InterestingFor <==> hadBefore(reply, msg, k) || (exists j int :: 0 <= j && j <= rangeindex && i.serverSessions[j] == k)
@@ -137,7 +147,9 @@ package ircserver
 //@   ensures ok: replyOK(reply) && result == msg && reply.lastmsg == msg && len(reply.Messages) > 0
 //@   ensures recipients: forall k uint64 :: k in lastIF(reply) <==> hadBefore(reply, msg, k) || (exists ch lcChan, n lcNick :: ch in user.Channels && ch in i.channels && n in i.channels[ch].nicks && i.nicks[n].Id.Id == k)
 //@   ensures kept: forall j int :: 0 <= j && j < old(len(reply.Messages)) ==> reply.Messages[j] == old(reply.Messages[j])
-//@   modifies Replyctx.replyid[reply], Replyctx.Messages[reply], Replyctx.lastmsg[reply], maptype(map[uint64]bool)[reply.Messages[len(reply.Messages)-1].InterestingFor]
+//@   ensures count: old(reply.lastmsg) == msg ==> len(reply.Messages) == old(len(reply.Messages))
+//@   ensures count1: old(reply.lastmsg) != msg ==> len(reply.Messages) == old(len(reply.Messages)) + 1
+//@   modifies Replyctx.replyid[reply], Replyctx.Messages[reply], Replyctx.lastmsg[reply], maptype(map[uint64]bool)[ite(reply.lastmsg == msg, reply.Messages[len(reply.Messages)-1].InterestingFor, nil)]
 //@   loop range user.Channels
 //@     invariant robustmsg != nil && robustmsg.InterestingFor != nil
 //@     invariant forall ch lcChan :: seen(ch) ==> ch in user.Channels
@@ -185,7 +197,7 @@ package ircserver
 //@   requires i != nil && wfLocks(i) && wfSessions(i)
 //@   ensures limit: result != nil <==> (i.Config.MaxSessions > 0 && old(len(i.sessions)) >= i.Config.MaxSessions)
 //@   ensures refused: result != nil ==> (forall x robust.Id :: x in i.sessions <==> old(x in i.sessions)) && len(i.sessions) == old(len(i.sessions))
-//@   ensures created: result == nil ==> id in i.sessions && fresh(i.sessions[id]) && i.sessions[id].Id == id && i.sessions[id].auth == auth && i.sessions[id].Nick == "" && !i.sessions[id].loggedIn && !i.sessions[id].Server && !i.sessions[id].Operator && !i.sessions[id].deleted && i.sessions[id].LastActivity == timestamp && len(i.sessions[id].Channels) == 0 && (forall ch lcChan :: !(ch in i.sessions[id].Channels)) && i.sessions[id].lastClientMessageId == 0
+//@   ensures created: result == nil ==> id in i.sessions && fresh(i.sessions[id]) && i.sessions[id].Id == id && i.sessions[id].auth == auth && i.sessions[id].Nick == "" && !i.sessions[id].loggedIn && !i.sessions[id].Server && !i.sessions[id].Operator && !i.sessions[id].deleted && i.sessions[id].LastActivity == timestamp && len(i.sessions[id].Channels) == 0 && (forall ch lcChan :: !(ch in i.sessions[id].Channels)) && i.sessions[id].lastClientMessageId == 0 && i.sessions[id].Username == "" && i.sessions[id].ircPrefix.Name == "" && i.sessions[id].ircPrefix.User == ""
 //@   ensures others: forall x robust.Id :: x != id ==> (x in i.sessions <==> old(x in i.sessions)) && (x in i.sessions ==> i.sessions[x] == old(i.sessions[x]))
 //@   ensures wf: wfSessions(i)
 //@   modifies map[i.sessions]
@@ -259,7 +271,7 @@ package ircserver
 //@ func IRCServer.CreateSession
 //@   requires i != nil && wfLocks(i) && wfSessions(i)
 //@   ensures limit: result != nil <==> (i.Config.MaxSessions > 0 && old(len(i.sessions)) >= i.Config.MaxSessions)
-//@   ensures created: result == nil ==> id in i.sessions && fresh(i.sessions[id]) && i.sessions[id].Id == id && i.sessions[id].auth == auth && i.sessions[id].Nick == "" && !i.sessions[id].loggedIn && !i.sessions[id].Server && !i.sessions[id].Operator && !i.sessions[id].deleted && i.sessions[id].LastActivity == timestamp && (forall ch lcChan :: !(ch in i.sessions[id].Channels)) && i.sessions[id].lastClientMessageId == 0
+//@   ensures created: result == nil ==> id in i.sessions && fresh(i.sessions[id]) && i.sessions[id].Id == id && i.sessions[id].auth == auth && i.sessions[id].Nick == "" && !i.sessions[id].loggedIn && !i.sessions[id].Server && !i.sessions[id].Operator && !i.sessions[id].deleted && i.sessions[id].LastActivity == timestamp && (forall ch lcChan :: !(ch in i.sessions[id].Channels)) && i.sessions[id].lastClientMessageId == 0 && i.sessions[id].Username == "" && i.sessions[id].ircPrefix.Name == "" && i.sessions[id].ircPrefix.User == ""
 //@   ensures refused: result != nil ==> (forall x robust.Id :: x in i.sessions <==> old(x in i.sessions))
 //@   ensures others: forall x robust.Id :: x != id ==> (x in i.sessions <==> old(x in i.sessions)) && (x in i.sessions ==> i.sessions[x] == old(i.sessions[x]))
 //@   ensures wf: wfSessions(i)
@@ -313,6 +325,12 @@ package ircserver
 //@   requires owner: wfOwner(i)
 //@   requires session: s.Id in i.sessions && i.sessions[s.Id] == s && !s.deleted
 //@   requires auth: wfAuth(i) && wfLogin(i)
+//@   requires prefix: wfPrefix(i)
+//@   ensures prefix: wfPrefix(i)
+//@   loopinv prefix: wfPrefix(i)
+// C12: a numeric reply goes to the session that caused it; the closing ERROR only to a session that is being closed
+//@   assert@call IRCServer.sendUser#* : numeric-to-causer: !s.Server && callarg3.Prefix == i.ServerPrefix && isnumeric(callarg3.Command) ==> callarg1 == s
+//@   assert@call IRCServer.sendUser#* : error-to-closed: callarg3.Command == irc.ERROR && callarg3.Prefix == nil ==> callarg1 == s || callarg1.deleted
 //@   requires othersalive: forall x robust.Id :: x in i.sessions && i.sessions[x] != s && i.sessions[x].deleted ==> s.Server || s.Operator
 //@   ensures auth: wfAuth(i)
 //@   ensures login: wfLogin(i)
@@ -360,7 +378,7 @@ package ircserver
 //@   opt prereg = NICK USER PASS QUIT SERVER
 
 //@ func IRCServer.ProcessMessage
-//@   requires state: wfMid(i) && wfAuth(i) && wfLogin(i) && wfAlive(i) && msg != nil && msg.Session in i.sessions && msg.Session.Reply == 0
+//@   requires state: wfMid(i) && wfAuth(i) && wfLogin(i) && wfAlive(i) && wfPrefix(i) && msg != nil && msg.Session in i.sessions && msg.Session.Reply == 0
 //@   ensures auth: wfAuth(i)
 //@   ensures login: wfLogin(i)
 //@   ensures base: wfBase(i)
@@ -372,6 +390,7 @@ package ircserver
 //@   ensures reply: result != nil && replyOK(result)
 //@   ensures keeps: forall x robust.Id :: old(x in i.sessions) ==> x in i.sessions && i.sessions[x] == old(i.sessions[x])
 //@   ensures revisionkept: i.Config.Revision == old(i.Config.Revision)
+//@   ensures prefix: wfPrefix(i)
 //@   ensures seenkept: i.lastProcessed == old(i.lastProcessed) && (forall x robust.Id :: x in i.sessions && !old(x in i.sessions) ==> x.Id == old(msg.Session.Id))
 //@   ensures onlyself: forall x robust.Id :: x in i.sessions && i.sessions[x] != i.sessions[old(msg.Session)] && i.sessions[x].deleted ==> i.sessions[old(msg.Session)].Server || i.sessions[old(msg.Session)].Operator
 //@   modifies *, !robust.Message
@@ -431,6 +450,8 @@ package ircserver
 //@   ensures rolekept: forall x robust.Id :: old(x in i.sessions) && old(i.sessions[x].Server) ==> i.sessions[x].Server
 //@   ensures revisionkept: i.Config.Revision == old(i.Config.Revision)
 //@   ensures seenkept: i.lastProcessed == old(i.lastProcessed) && (forall x robust.Id :: x in i.sessions ==> old(x in i.sessions))
+//@   requires prefix: wfPrefix(i)
+//@   ensures prefix: wfPrefix(i)
 //@   requires auth: wfAuth(i) && wfLogin(i)
 //@   ensures auth: wfAuth(i)
 //@   ensures login: wfLogin(i)
@@ -468,7 +489,9 @@ package ircserver
 // list the old name (which is no longer owned), visited ones list the new one.
 //@ pred chanShape(i *IRCServer) = i.channels != nil && (forall ch lcChan :: ch in i.channels ==> i.channels[ch] != nil && allocated(i.channels[ch]) && i.channels[ch].nicks != nil && allocated(i.channels[ch].nicks) && ChanToLower(i.channels[ch].name) == ch && bansOK(i.channels[ch])) && (forall a lcChan, b lcChan {i.channels[a].nicks, i.channels[b].nicks} :: a in i.channels && b in i.channels && a != b ==> i.channels[a].nicks != i.channels[b].nicks)
 //@ func IRCServer.cmdNick
+//@   assert@call IRCServer.sendCommonChannels#0 : nick-announce: callarg1 == s && callarg3.Prefix != nil && callarg3.Prefix != i.ServerPrefix && callarg3.Prefix.Name == old(s.Nick) && callarg3.Prefix.User == old(s.Username)
 //@   requires api: s.Id.Reply == 0
+//@   requires role: !s.Server
 //@   loop range i.channels
 //@     nodefault
 //@     invariant wfBase(i) && wfSessions(i) && wfAuth(i) && wfLogin(i) && wfNicks(i) && wfOwner(i) && replyOK(reply) && chanShape(i)
@@ -484,20 +507,24 @@ package ircserver
 
 // C14 limits: a channel is only created while the configured maximum is not reached.
 //@ func IRCServer.cmdJoin
+//@   assert@call IRCServer.sendChannel#0 : join-announce: callarg1 == i.channels[ChanToLower(channelname)] && NickToLower(s.Nick) in callarg1.nicks && callarg3.Prefix == addrof(s.ircPrefix)
 //@   assert@mapupdate i.channels#0 : limit: i.Config.MaxChannels == 0 || len(i.channels) < i.Config.MaxChannels
 //@   requires registered: s.loggedIn && !s.Server
 //@   requires api: s.Id.Reply == 0
 
 //@ func IRCServer.cmdMode
+//@   assert@call IRCServer.sendChannel#0 : mode-announce: callarg1 == i.channels[ChanToLower(channelname)] && ChanToLower(channelname) in s.Channels && callarg3.Prefix == addrof(s.ircPrefix)
 //@   ensures stillalive: !s.deleted && (old(s.loggedIn) ==> s.loggedIn)
 //@   ensures nonew: forall x robust.Id :: x in i.sessions ==> old(x in i.sessions)
 //@   loop range modes
 //@     invariant forall k int :: 0 <= k && k < len(modes) ==> len(modes[k].Mode) >= 2
-//@     invariant c != nil && ChanToLower(channelname) in i.channels && c == i.channels[ChanToLower(channelname)]
+//@     invariant c != nil && ChanToLower(channelname) in i.channels && c == i.channels[ChanToLower(channelname)] && ChanToLower(channelname) in s.Channels
 //@   loop range modes #1
 //@     invariant forall k int :: 0 <= k && k < len(modes) ==> len(modes[k].Mode) >= 2
 //@     invariant session != nil && nick in i.nicks && session == i.nicks[nick]
 //@ func IRCServer.cmdTopic
+//@   assert@call IRCServer.sendChannel#0 : topic-announce: callarg1 == i.channels[ChanToLower(msg.Params[0])] && ChanToLower(msg.Params[0]) in s.Channels && callarg3.Prefix == addrof(s.ircPrefix)
+//@   assert@call IRCServer.sendChannel#1 : topic-announce: callarg1 == i.channels[ChanToLower(msg.Params[0])] && ChanToLower(msg.Params[0]) in s.Channels && callarg3.Prefix == addrof(s.ircPrefix)
 //@   ensures stillalive: !s.deleted && (old(s.loggedIn) ==> s.loggedIn)
 //@   ensures nonew: forall x robust.Id :: x in i.sessions ==> old(x in i.sessions)
 //@ func IRCServer.cmdNames
@@ -603,7 +630,7 @@ package ircserver
 // MinParams 3: that branch (and its return) is dead code, not a vacuous proof.
 //@ func IRCServer.cmdServerTopic
 //@   requires conforming-prefix: msg.Prefix != nil
-//@   opt dead = return#0
+//@   opt dead = return#1
 //@ func IRCServer.cmdServerKill
 //@   requires conforming-prefix: msg.Prefix != nil
 //@   requires role: s.Server
@@ -642,7 +669,7 @@ package ircserver
 // ---------------------------------------------------------------------------
 // C14: what the representation invariant means for the user
 
-//@ pred wfAll(i *IRCServer) = wfMid(i) && wfAuth(i) && wfLogin(i) && wfAlive(i)
+//@ pred wfAll(i *IRCServer) = wfMid(i) && wfAuth(i) && wfLogin(i) && wfAlive(i) && wfPrefix(i)
 
 // A fresh server satisfies the invariant.
 //@ func NewIRCServer
@@ -690,3 +717,40 @@ package ircserver
 //@   opt params = i *IRCServer, id robust.Id, applied uint64
 //@   requires seenUpTo(i, applied) && !(id in i.sessions) && i.lastProcessed.Id > id.Id
 //@   ensures older: id.Id < applied
+
+// C12 identity: must follow every change of Nick or Username
+//@ func Session.updateIrcPrefix
+//@   requires s != nil
+//@   ensures s.ircPrefix.Name == s.Nick && s.ircPrefix.User == s.Username
+//@   modifies irc.Prefix.Name[addrof(s.ircPrefix)], irc.Prefix.User[addrof(s.ircPrefix)], irc.Prefix.Host[addrof(s.ircPrefix)]
+
+// ---------------------------------------------------------------------------
+// C12: who receives what
+
+// A channel PRIVMSG/NOTICE goes to every other member of that channel and to nobody else; a private
+// one only to the session that owns the target nickname (and, for +G targets, only when sender and
+// target share a channel). Exactly one message is appended in these cases.
+//@ func IRCServer.cmdPrivmsg
+//@   ensures chanmsg: len(msg.Params) >= 2 && strings.HasPrefix(msg.Params[0], "#") && old(ChanToLower(msg.Params[0]) in i.channels) && (old(NickToLower(s.Nick) in i.channels[ChanToLower(msg.Params[0])].nicks) || !old(i.channels[ChanToLower(msg.Params[0])].modes[110])) ==> len(reply.Messages) == old(len(reply.Messages)) + 1 && (forall k uint64 :: k in lastIF(reply) <==> (exists n lcNick :: n in i.channels[ChanToLower(msg.Params[0])].nicks && i.nicks[n] != s && i.nicks[n].Id.Id == k))
+//@   ensures chanblocked: len(msg.Params) >= 2 && strings.HasPrefix(msg.Params[0], "#") && old(ChanToLower(msg.Params[0]) in i.channels) && !old(NickToLower(s.Nick) in i.channels[ChanToLower(msg.Params[0])].nicks) && old(i.channels[ChanToLower(msg.Params[0])].modes[110]) ==> len(reply.Messages) == old(len(reply.Messages)) + 1 && (forall k uint64 :: k in lastIF(reply) <==> k == s.Id.Id)
+//@   ensures private: len(msg.Params) >= 2 && !strings.HasPrefix(msg.Params[0], "#") && !strings.HasPrefix(msg.Params[0], "$") && old(NickToLower(msg.Params[0]) in i.nicks) && !old(i.nicks[NickToLower(msg.Params[0])].modes[71]) ==> len(reply.Messages) >= old(len(reply.Messages)) + 1 && (forall k uint64 :: k in reply.Messages[old(len(reply.Messages))].InterestingFor <==> k == old(i.nicks[NickToLower(msg.Params[0])].Id.Id))
+//@   ensures operonly: len(msg.Params) >= 2 && strings.HasPrefix(msg.Params[0], "$") && !s.Operator ==> len(reply.Messages) == old(len(reply.Messages)) + 1 && (forall k uint64 :: k in lastIF(reply) <==> k == s.Id.Id)
+//@   assert@call IRCServer.sendChannelButOne#0 : identity: callarg4.Prefix == addrof(s.ircPrefix) && callarg2 == s
+//@   assert@call IRCServer.sendAllUsers#0 : identity: callarg2.Prefix == addrof(s.ircPrefix) && s.Operator
+//@   assert@call IRCServer.sendUser#6 : identity: callarg3.Prefix == addrof(s.ircPrefix) && callarg1 == session
+//@   loop range session.Channels
+//@     invariant session != nil && NickToLower(msg.Params[0]) in i.nicks && session == i.nicks[NickToLower(msg.Params[0])] && len(reply.Messages) == old(len(reply.Messages))
+
+// notifications: only to the affected channel (sendChannel = exactly its members) / the sessions sharing
+// a channel with the subject (sendCommonChannels) / the subject itself, under the actor's own prefix
+//@ func IRCServer.cmdPart
+//@   assert@call IRCServer.sendChannel#0 : part-announce: callarg1 == i.channels[ChanToLower(channelname)] && NickToLower(s.Nick) in callarg1.nicks && callarg3.Prefix == addrof(s.ircPrefix)
+//@ func IRCServer.cmdKick
+//@   assert@call IRCServer.sendChannel#0 : kick-announce: callarg1 == i.channels[ChanToLower(msg.Params[0])] && NickToLower(s.Nick) in callarg1.nicks && NickToLower(msg.Params[1]) in callarg1.nicks && callarg3.Prefix == addrof(s.ircPrefix)
+//@ func IRCServer.cmdQuit
+//@   assert@call IRCServer.sendCommonChannels#0 : quit-announce: callarg1 == s && callarg3.Prefix == addrof(s.ircPrefix)
+//@ func IRCServer.cmdKill
+//@   assert@call IRCServer.sendCommonChannels#0 : kill-announce: callarg1 == session && callarg3.Prefix == addrof(session.ircPrefix) && s.Operator
+//@   assert@call IRCServer.sendUser#2 : kill-line: callarg1 == session && callarg3.Prefix == addrof(s.ircPrefix)
+//@ func IRCServer.cmdInvite
+//@   assert@call IRCServer.sendUser#6 : invite-line: callarg1 == session && callarg3.Prefix == addrof(s.ircPrefix)
